@@ -380,6 +380,17 @@ func genBuildCase(t *rapid.T) buildCase {
 			set[w] = true
 		}
 		words = sortedWords(set)
+	case 3: // words that share a stem of 60..140 bytes and differ only after it (duplicates and out-of-order words are spliced in below)
+		stem := ""
+		for L := rapid.SampledFrom([]int{60, 63, 64, 65, 70, 127, 128, 129, 140}).Draw(t, "stemlen"); len(stem) < L; {
+			stem += string(genWordOver(t, alpha, 3)) + "s"
+		}
+		set := map[word]bool{}
+		for i := rapid.IntRange(2, 8).Draw(t, "nstem"); i > 0; i-- {
+			set[word(stem)+genWordOver(t, alpha, 3)] = true
+		}
+		set[word(stem)] = true
+		words = sortedWords(set)
 	case 1: // long words with shared suffixes: unshared tails of 33+ letters
 		set := map[word]bool{}
 		tail := genWordOver(t, alpha, 4)
@@ -1137,14 +1148,25 @@ func checkGobCase(c gobCase, rec *Rec) error {
 		}
 		return nil
 	}
+	// the bytes handed to GobDecode belong to the caller again once it returns (encoding/gob reuses its buffer): decode
+	// from a copy, overwrite the copy, and verify after that
 	d2 := new(dawg.Dawg)
-	if p := try(func() { err = d2.GobDecode(enc) }); p != nil {
+	encCopy := append([]byte{}, enc...)
+	defer func() {
+		for i := range encCopy {
+			encCopy[i] = 0xAA
+		}
+	}()
+	if p := try(func() { err = d2.GobDecode(encCopy) }); p != nil {
 		return fmt.Errorf("GobDecode(GobEncode(d)) panicked: %v (max children %d, %d nodes, %d words)", p, maxChildren, len(nodes), len(c.Words))
 	}
 	if err != nil {
 		return fmt.Errorf("GobDecode(GobEncode(d)) failed: %v (max children %d, %d nodes, %d words)", err, maxChildren, len(nodes), len(c.Words))
 	}
-	if err := verify("GobDecode", d2); err != nil {
+	for i := range encCopy {
+		encCopy[i] = byte(0x55 + i)
+	}
+	if err := verify("GobDecode (input buffer overwritten afterwards)", d2); err != nil {
 		return err
 	}
 	// GobDecode replaces the contents of its receiver: decode into an automaton that already holds other words
